@@ -20,7 +20,7 @@
    tied to the real code by K1, not verified. *)
 From Coq Require Import String ZArith NArith QArith List Bool Permutation.
 From Typify Require Import Base.Json Spec.Schema Spec.Valid IR.TypeIR IR.Serde
-     Algo.Merge Check.Uninhabited Proofs.ValidProofs Proofs.MergeProofs.
+     Algo.Merge Check.Uninhabited Proofs.ValidProofs Proofs.MergeProofs Proofs.MergeExactProofs.
 Import ListNotations.
 Close Scope Q_scope.
 Close Scope string_scope.
@@ -128,7 +128,8 @@ Proof. exact merge_all_ofrag_sound. Qed.
    Exclusion classes (each the decidable complement of a recorded refutation):
      Known_F1 = `integer` and `number` both occur -> [tx] in {TNumber, TInteger} is the type that does NOT occur;
      object keyword group without "type":"object" (C09_merge_never_refuted_untyped);
-     format; array keywords (F5, F7); number / string validation; $ref (roughly); anyOf / oneOf / not (F3, F10);
+     format; array keywords (see C09_merge_sound_arr / _tuple below); number / string validation; $ref (roughly);
+     anyOf / oneOf / not (F3, F10);
      float enum literals (F11, serde `==`).  F6, F8, F9 are defects of the conversion of the merged schema, or need
      three members in an order-dependent way that the MERGE's instance set does not show: they are not exclusions. *)
 Theorem C09_merge_sound_obj :
@@ -175,8 +176,34 @@ Theorem C09_merge_never_arr :
               validx re_match fmt_ok o DV n a v && validx re_match fmt_ok o DV n b v = false.
 Proof. exact merge_never_arr. Qed.
 
+(* TUPLE MODE ([obj_frag true true]): `items` as a TUPLE with `additionalItems` absent or a schema of the fragment
+   (also `false` / `true`), minItems, maxItems, uniqueItems, guarded by "type":"array"; tuples of different lengths
+   are padded with their OWN additionalItems (merge_items_array: stop at maxItems, or at the first unmergeable
+   position).  Exclusions: a single `items` schema never meets a tuple (finding C09-F7); no explicit zero bound
+   `minItems: 0` / `maxItems: 0` (C09_merge_exact_refuted_maxitems0); instances without empty arrays (the
+   first-position half of F5). *)
+Theorem C09_merge_sound_tuple :
+  forall (re_match fmt_ok : ustring -> ustring -> bool) (o : vopts) (DV : defs) (n : nat)
+         (tx : itype) (D : defs) (f : nat) (a b m : schema),
+    tx = TNumber \/ tx = TInteger ->
+    obj_frag true true tx a = true -> obj_frag true true tx b = true -> merge D f a b = MOk m ->
+    obj_frag true true tx m = true /\
+    forall v, wf_json v = true -> no_empty_arr v = true ->
+              validx re_match fmt_ok o DV n m v = validx re_match fmt_ok o DV n a v && validx re_match fmt_ok o DV n b v.
+Proof. exact merge_sound_tuple. Qed.
+
+Theorem C09_merge_never_tuple :
+  forall (re_match fmt_ok : ustring -> ustring -> bool) (o : vopts) (DV : defs) (n : nat)
+         (tx : itype) (D : defs) (f : nat) (a b : schema),
+    tx = TNumber \/ tx = TInteger ->
+    obj_frag true true tx a = true -> obj_frag true true tx b = true -> merge D f a b = MNever ->
+    forall v, wf_json v = true -> no_empty_arr v = true ->
+              validx re_match fmt_ok o DV n a v && validx re_match fmt_ok o DV n b v = false.
+Proof. exact merge_never_tuple. Qed.
+
 (* the same with Spec/Valid.v's three-valued discipline: Valid = definite at some fuel and true
-   ([wa] = false: objects, instances [wf_json]; [wa] = true: with arrays, instances additionally [no_empty_arr]) *)
+   ([wa] = false: objects, instances [wf_json]; [wa] = true: with arrays, instances additionally [no_empty_arr];
+   [tm]: tuple mode) *)
 Theorem C09_merge_sound_obj_Valid :
   forall (re_match fmt_ok : ustring -> ustring -> bool) (DV : defs) (wa tm : bool) (tx : itype),
     tx = TNumber \/ tx = TInteger ->
@@ -241,6 +268,12 @@ Theorem C09_F2_witness_orders_agree :
                /\ Vd w_defs 3 m (JArr [JStr (ulit "a"); JStr (ulit "b")]) = true
                /\ Vd w_defs 3 m' (JArr [JStr (ulit "a"); JStr (ulit "b")]) = true.
 Proof. exact f2_witness_orders_agree. Qed.
+
+(* exactness fails for an explicit `maxItems: 0` next to a tuple conflict (replayed on verif::merge_all:
+   allOf[{items:[string,integer],maxItems:0},{items:[string,string]}] merges to {items:[string],maxItems:1}) *)
+Theorem C09_merge_exact_refuted_maxitems0 :
+  exists a b m v, merge [] 6 a b = MOk m /\ Vd [] 0 m v = true /\ Vd [] 0 a v = false.
+Proof. exact exact_refuted_maxitems0. Qed.
 
 (* ---------------------------------------------------------------- never => uninhabited generated type *)
 Theorem C09_uninhabited_sound :
@@ -309,6 +342,16 @@ Example C09_arr_never_example :
   /\ Vd [] 0 exa_a (JObj [([116%N], JArr [])]) = true /\ Vd [] 0 exa_c (JObj [([116%N], JArr [])]) = true
   /\ no_empty_arr (JObj [([116%N], JArr [])]) = false.
 Proof. exact arr_never_example. Qed.
+
+(* tuples of different lengths, the longer one closed and of fixed length (the shape of the first seeded regression) *)
+Example C09_tuple_exact_example :
+  obj_frag true true TNumber ext_a = true /\ obj_frag true true TNumber ext_b = true /\ obj_frag true true TNumber ext_c = true /\
+  exists m m2, merge [] 6 ext_a ext_b = MOk m /\ obj_frag true true TNumber m = true
+            /\ Vd [] 0 m ext_v_ok = true /\ Vd [] 0 m ext_v_long = false /\ Vd [] 0 ext_a ext_v_long = false
+            /\ merge [] 6 ext_b ext_c = MOk m2
+            /\ Vd [] 0 m2 ext_v_ok = true /\ Vd [] 0 m2 ext_v_long = true /\ Vd [] 0 m2 ext_v_bad = false
+            /\ Vd [] 0 ext_c ext_v_bad = false /\ inst_ok true ext_v_ok = true.
+Proof. exact tuple_exact_example. Qed.
 
 (* the empty enum of convert_never is uninhabited *)
 Example C09_never_type_uninhabited :
